@@ -57,6 +57,25 @@ C01_Imul3(zz) ==
   { L1("imul", <<p[1], p[2], ImHex(v)>>) : p \in UNION {Pairs(w) : w \in {16, 32, 64}}, v \in {3} }
 C01_None(zz) == { L1(mn, <<>>) : mn \in NoOpd }
 
+\* a size keyword in front of a REGISTER operand (nasm accepts the redundant keyword; the library's documentation mentions keywords for
+\* memory operands only): the line may be rejected, an accepted one is the operation on the registers written
+KWr(w) == CASE w = 8 -> "byte" [] w = 16 -> "word" [] w = 32 -> "dword" [] OTHER -> "qword"
+GK(r, kw) == [k |-> "r", f |-> r.f, w |-> r.w, n |-> r.n, h |-> r.h, kw |-> kw]
+M1(mn, opds) == Rec("C01", "MayReject", mn, opds)
+KwRegs(w) == {G(w, n) : n \in {0, 3, 4, 5, 6, 7, 9, 12}} \cup (IF w = 8 THEN {H(4), H(7)} ELSE {})
+C01_KwW(w) ==
+     { M1(mn, <<GK(a, KWr(w)), b>>) : mn \in {"mov", "add", "cmp", "test"}, a \in KwRegs(w), b \in {G(w, 0), G(w, 6), G(w, 9)} }
+\cup { M1(mn, <<b, GK(a, KWr(w))>>) : mn \in {"mov", "add", "cmp", "test"}, a \in KwRegs(w), b \in {G(w, 0), G(w, 6), G(w, 9)} }
+\cup { M1(mn, <<GK(a, KWr(w))>>) : mn \in {"inc", "dec", "neg", "not"}, a \in KwRegs(w) }
+\cup (IF w \in {16, 64} THEN { M1(mn, <<GK(a, KWr(w))>>) : mn \in {"push", "pop"}, a \in KwRegs(w) } ELSE {})
+\cup { M1(mn, <<GK(a, KWr(w)), ImHex(1)>>) : mn \in {"add", "shl", "mov"}, a \in KwRegs(w) }
+C01_Kw(zz) ==
+  { r \in UNION {C01_KwW(w) : w \in {8, 16, 32, 64}}
+\cup { M1(mn, <<GK(a, "byte")>>) : mn \in {"setc", "setnle"}, a \in KwRegs(8) }
+\cup { M1("movzx", <<G(32, b), GK(a, "byte")>>) : a \in KwRegs(8), b \in {0, 9} }
+\cup { M1("movzx", <<G(64, b), GK(a, "word")>>) : a \in KwRegs(16), b \in {0, 9} }
+   : Legal({[f |-> o.f, w |-> o.w, n |-> o.n, h |-> o.h] : o \in {r.ast.opds[j] : j \in {q \in 1..Len(r.ast.opds) : r.ast.opds[q].k = "r"}}}) }
+
 RegOpds(r) == {r.ast.opds[j] : j \in {k \in 1..Len(r.ast.opds) : r.ast.opds[k].k = "r"}}
 CorpusC01(zz) == { r \in C01_Two(0) \cup C01_Cmov(0) \cup C01_Adx(0) \cup C01_Movzx(0) \cup C01_One(0) \cup C01_Shift(0) \cup C01_Shd(0)
                       \cup C01_Imul3(0) \cup C01_None(0) : Legal(RegOpds(r)) }
@@ -192,6 +211,15 @@ C02_Table(zz) ==
 \cup { L2(mn, <<Yr(a), Yr(b), W(m, 256, "")>>) : mn \in {x \in VexPacked \cup VOnly256 : "yym" \in LibForms(x)}, a \in {1, 9}, b \in {2, 15}, m \in MemT }
 \cup { L2(mn, <<G(w, 1), W(m, w, ""), G(w, 10)>>) : mn \in Bmi, w \in {32, 64}, m \in MemT }
 \cup { L2(mn, <<W(m, w, KW(w))>>) : mn \in {"inc", "dec", "neg", "not", "mul", "div", "idiv", "imul"} \cap Mnemonics, w \in {8, 16, 32, 64}, m \in MemT }
+\* the index part written in FRONT of the base ([2*rax+rbx], [rax*4+r8-0x10]): an order the library does not document (it may reject
+\* the line), but the same address - an accepted line must encode base and index as written
+ShapesLate == { Mem("", 0, a, b, i, s, ord, d) : a \in {64, 32}, b \in {0, 3, 5, 8, 12, 13}, i \in {0, 1, 9, 13}, s \in {1, 2, 4, 8}, ord \in {"sb", "ib"},
+                                                d \in {NoD, D(FALSE, <<16,0,0,0>>, "hex"), D(TRUE, <<129,0,0,0>>, "hex")} }
+C02_Late(zz) ==
+     { Rec("C02", "MayReject", "lea", <<G(64, 1), m>>) : m \in ShapesLate }
+\cup { Rec("C02", "MayReject", "mov", <<G(64, 9), W(m, 64, "")>>) : m \in {x \in ShapesLate : x.s \in {1, 4}} }
+\cup { Rec("C02", "MayReject", "add", <<W(m, 32, "dword"), ImHex(5)>>) : m \in {x \in ShapesLate : x.s \in {2, 8} /\ ~x.hasd} }
+\cup { Rec("C02", "MayReject", "vpaddb", <<Yr(1), Yr(2), W(m, 256, "")>>) : m \in {x \in ShapesLate : x.s = 4 /\ x.a = 64} }
 C02_Cls2(sel(_)) == UNION {C02_Class2(m) : m \in {x \in ShapesRed : sel(x)}}
 C02_Cls(sel(_)) == UNION {C02_Class(m) : m \in {x \in ShapesRed : sel(x)}}
 \* the stack pointer as (unscaled) index under every encoding class - the shape NASM-style swapping rewrites - with every kind of base
@@ -240,6 +268,7 @@ C03_Kw(zz) ==
      { M3(mn, <<G(w, n), ImK(IF kb THEN "byte" ELSE KW(w), v)>>) : mn \in Alu \cup {"test", "mov"}, w \in {16, 32, 64}, n \in {0, 1, 9}, kb \in BOOLEAN, v \in {5, 127} }
 \cup { M3(mn, <<W(m, w, KW(w)), ImK(IF kb THEN "byte" ELSE KW(w), 5)>>) : mn \in {"add", "cmp", "mov", "test"}, w \in {8, 32, 64}, m \in MemD, kb \in BOOLEAN }
 \cup { M3(mn, <<G(w, 1), ImK("byte", v)>>) : mn \in Shifts, w \in {16, 32, 64}, v \in {1, 5} }
+\cup { M3(mn, <<W(m, w, ""), ImK(KW(w), 5)>>) : mn \in {"add", "cmp", "mov", "test"}, w \in {8, 16, 32, 64}, m \in MemD }      \* (mov [rax], byte 5: the keyword sizes the store)
 \cup { M3("imul", <<G(w, 1), G(w, 9), ImK(IF kb THEN "byte" ELSE KW(w), 5)>>) : w \in {16, 32, 64}, kb \in BOOLEAN }
 \cup { M3(mn, <<G(w, 1), G(w, 9), ImK("byte", 5)>>) : mn \in {"shld", "shrd"}, w \in {16, 32, 64} }
 \cup { M3("rorx", <<G(w, 1), G(w, 9), ImK("byte", 5)>>) : w \in {32, 64} }
@@ -469,13 +498,14 @@ Styles2(zz) == {st \in StyleDims : Cardinality(Changed(st)) <= 2}
 Styles3(zz) == {st \in StyleDims : Cardinality(Changed(st)) = 3}
 \* program decorations: lines that emit nothing
 DecorLines == { <<"">>, <<" ">>, <<"; only a comment">>, <<"label:">>, <<"  loop_1:">>, <<"section .text">>, <<"SECTION .data">>,
-                <<"global main">>, <<"GLOBAL _start">>, <<"% macro-like">>, <<"<09>", "; c">>, <<"   ", "; indented comment">>,
+                <<"global main">>, <<"GLOBAL _start">>, <<"[section .text]">>, <<"[GLOBAL test]">>, <<"  [ section .data ]">>, <<"[global f] ; c">>, <<"% macro-like">>, <<"<09>", "; c">>, <<"   ", "; indented comment">>,
                 [k \in 1..130 |-> " "], <<";">> \o [k \in 1..150 |-> "c"], [k \in 1..110 |-> " "] \o <<"; c">>,
                 \* labels followed by blanks / a comment, with a blank before the colon, in upper case
                 <<"label: ">>, <<"label:", "<09>">>, <<"lbl: ", "; c">>, <<"lbl :">>, <<"  l2:  ">>, <<"L3:;c">>, <<"END:   ">> }
 
 (* ============================= selection ================================ *)
 Selected == CASE IOEnv.CORPUS = "C01" -> CorpusC01(0)
+              [] IOEnv.CORPUS = "C01k" -> C01_Kw(0)
               [] IOEnv.CORPUS = "C02a" -> C02_LeaA(0)
               [] IOEnv.CORPUS = "C02b" -> C02_LeaB(0)
               [] IOEnv.CORPUS = "C02c" -> C02_LeaC(0)
@@ -488,6 +518,7 @@ Selected == CASE IOEnv.CORPUS = "C01" -> CorpusC01(0)
               [] IOEnv.CORPUS = "C02i" -> C02_Cls2(LAMBDA m : m.a = 64 /\ m.b >= 9)
               [] IOEnv.CORPUS = "C02j" -> C02_Cls2(LAMBDA m : m.a = 32)
               [] IOEnv.CORPUS = "C02l" -> C02_Sp(0)
+              [] IOEnv.CORPUS = "C02m" -> C02_Late(0)
               [] IOEnv.CORPUS = "C03" -> CorpusC03(0)
               [] IOEnv.CORPUS = "C03k" -> { [prop |-> y.prop, status |-> y.status, ast |-> y.ast, flags |-> "-"] : y \in C03_Kw(0) }
               [] IOEnv.CORPUS = "C04a" -> C04_Mmx(0) \cup C04_Sse(0) \cup C04_Mov(0) \cup C04_VMov(0)
